@@ -13,6 +13,16 @@ namespace Pymeeus.C18
 open Pymeeus Pymeeus.PR Pymeeus.GenR.Kepler Pymeeus.GenR.Ellipsoid Pymeeus.Refine.Kepler Pymeeus.Refine.Ellipsoid
   Pymeeus.Refine.Parallax Real Filter Topology
 
+/-! ## The ellipsoid -/
+
+/-- `Ellipsoid.b` and `Ellipsoid.e`: `b = a (1 − f)` and the eccentricity satisfies `e² = 1 − (b/a)²`. -/
+theorem ellipsoid_b_e {el : Ell} (h : Valid el) :
+    el.b = el.a * (1 - el.f) ∧ ∃ e, el.e = .ok e ∧ 0 ≤ e ∧ e ^ 2 = 1 - (el.b / el.a) ^ 2 := by
+  refine ⟨b_eq el, _, e_eq h, Real.sqrt_nonneg _, ?_⟩
+  rw [sq, e_sq h, b_eq]
+  have := h.a_pos.ne'
+  field_simp
+
 /-! ## Geocentric coordinates of the observer -/
 
 /-- "the observer's geocentric coordinates at sea level lie on the meridian ellipse
